@@ -119,6 +119,20 @@ BLOCKS += [
   "the SOLVER'S ARGUMENT BUNDLE AS TRANSLATED (Gen/G_aa_*.v; facts: Proofs/GenEquivAR.v): a copy hands all nine fields on unchanged, in\n   their own slots (its deep copy IS its shallow copy: a matrix-valued sparsity weight would be shared - the library never calls it)",
   [("C02_code_bundle_shallow_copy", "aa_shallow_returns"), ("C02_code_bundle_deep_copy", "aa_deep_returns")]),
 ]
+BLOCKS += [
+ ("C15", "SkelRM15", "GenEquivRM", ["ng_prange", "ng_njit", "ng_noop"],
+  "the NUMBA GUARD AS TRANSLATED (Gen/G_ng_*.v; facts: Proofs/GenEquivRM.v): without Numba, prange IS range on the very same arguments, njit(...)\n   is the no-op decorator (no call is made at all) and that decorator's wrapper only forwards to the function; with Numba both fall\n   through to numba.prange / numba.njit on the very same arguments",
+  [("C15_code_prange", "prange_returns"), ("C15_code_njit", "njit_returns"), ("C15_code_noop_decorator", "noop_returns")]),
+ ("C09", "SkelRM09", "GenEquivRM", ["vh_emit", "vh_add", "vh_clear"],
+  "the OBSERVATION HOOKS AS TRANSLATED (src/fast_ticc/_verif.py, Gen/G_vh_*.v; facts: Proofs/GenEquivRM.v): with the guard off a hook makes\n   NO call at all and returns None; with it on, it snapshots the listener list and calls each listener once, in order, with the\n   event and the payload, and returns None - it hands nothing back into the library",
+  [("C09_code_hook_disabled", "emit_disabled"), ("C09_code_hook_enabled", "emit_enabled"), ("C09_code_hook_add", "add_listener_returns"), ("C09_code_hook_clear", "clear_listeners_returns")]),
+ ("C13", "SkelRM13", "GenEquivRM", ["cp_size", "cp_members", "st_labels"],
+  "the PROPERTY GETTERS AS TRANSLATED (Gen/G_cp_size.v, G_cp_members.v, G_st_labels.v; facts: Proofs/GenEquivRM.v): labels and members are\n   the stored private fields themselves (no copy: whoever reads them holds the state's own lists), size is len(members) or 0",
+  [("C13_code_size_getter", "size_getter_returns"), ("C13_code_members_getter", "members_getter_returns"), ("C13_code_labels_getter", "labels_getter_returns")]),
+ ("C19", "SkelRM19", "GenEquivRM", ["ua_print"],
+  "the ARGUMENT PRINTER AS TRANSLATED (Gen/G_ua_print.v; facts: Proofs/GenEquivRM.v): reads the nine fields, writes only through print(file=stream)\n   and a closure over that same stream (the stream given, or sys.stdout when none is), returns None",
+  [("C19_code_print", "print_returns")]),
+]
 for prop, sec, pf, mods, comment, thms in BLOCKS:
     p = "%s/Properties/%sgen.v" % (COQ, prop)
     s = open(p).read()
